@@ -16,6 +16,8 @@ pub struct OutputRec {
     pub datum_raw: Option<Vec<u8>>,
     pub datum_hash: Option<Vec<u8>>,
     pub script_ref: Option<Vec<u8>>,
+    /// length of the output's own encoding inside the body
+    pub raw_len: usize,
 }
 
 #[derive(Debug, Clone, PartialEq)]
@@ -112,6 +114,7 @@ fn output(n: &Node, whole: &[u8]) -> Result<OutputRec, String> {
             datum_raw: None,
             datum_hash: a.get(2).and_then(|x| x.as_bytes()).map(|b| b.to_vec()),
             script_ref: None,
+            raw_len: n.end - n.start,
         });
     }
     let address = n.map_get_u(0).and_then(|x| x.as_bytes()).ok_or("output address")?.to_vec();
@@ -139,6 +142,7 @@ fn output(n: &Node, whole: &[u8]) -> Result<OutputRec, String> {
         datum_raw,
         datum_hash,
         script_ref,
+        raw_len: n.end - n.start,
     })
 }
 
